@@ -30,6 +30,7 @@ pub struct Word {
     pub head: String, // CSV column 4: the headword (WordInfo::surface); any string, often of another byte length
     pub cost: i32,
     pub indexed: bool,
+    pub shadow_of: Option<(usize, u32)>, // an exact duplicate (key, headword, POS, reading) of that word of the system dictionary
     pub a: Vec<(usize, u32, bool)>, // (dictionary of the unit, index, written as inline reference)
     pub b: Vec<(usize, u32, bool)>,
 }
@@ -49,8 +50,12 @@ impl Lexica {
     pub fn raw_wid(dic: usize, idx: u32) -> u32 {
         ((dic as u32) << 28) | idx
     }
+    pub fn reading_of(w: &Word) -> String {
+        Self::reading(w)
+    }
     fn reading(w: &Word) -> String {
-        format!("ヨ{}x{}", w.dic, w.idx)
+        let (d, i) = w.shadow_of.unwrap_or((w.dic, w.idx));
+        format!("ヨ{}x{}", d, i)
     }
     fn unit_text(&self, owner: usize, u: &(usize, u32, bool)) -> String {
         let w = self.get(u.0, u.1);
@@ -125,7 +130,7 @@ pub fn gen_lexica(rng: &mut Rng, want_ill_formed: bool) -> Lexica {
             }
             let k = rng.below(pool.len() as u64) as usize;
             let key = pool.remove(k);
-            lx.words.push(Word { dic, idx, key: key.to_string(), head: gen_head(rng, key), cost: 2000 + rng.below(500) as i32, indexed: !rng.chance(1, 6), a: vec![], b: vec![] });
+            lx.words.push(Word { dic, idx, key: key.to_string(), head: gen_head(rng, key), cost: 2000 + rng.below(500) as i32, indexed: !rng.chance(1, 6), shadow_of: None, a: vec![], b: vec![] });
             idx += 1;
         }
         // compounds
@@ -170,14 +175,43 @@ pub fn gen_lexica(rng: &mut Rng, want_ill_formed: bool) -> Lexica {
             };
             let cost = if rng.chance(1, 8) { 9000 } else { 50 + rng.below(300) as i32 };
             let head = gen_head(rng, &key);
-            lx.words.push(Word { dic, idx, key, head, cost, indexed: true, a, b });
+            lx.words.push(Word { dic, idx, key, head, cost, indexed: true, shadow_of: None, a, b });
             idx += 1;
+        }
+        // a user dictionary may repeat a system word exactly (same key, headword, POS and reading): DictBuilder::resolve
+        // looks an inline reference up among the rows being compiled first and only then in the system dictionary, so
+        // every inline reference of this dictionary that names such a word denotes the user's copy
+        if dic > 0 && rng.chance(1, 2) {
+            let cands: Vec<Word> = lx.words.iter().filter(|w| w.dic == 0 && w.head == w.key).cloned().collect();
+            if !cands.is_empty() {
+                let t = rng.pick(&cands).clone();
+                lx.words.push(Word { dic, idx, key: t.key.clone(), head: t.head.clone(), cost: 2000 + rng.below(500) as i32, indexed: true, shadow_of: Some((0, t.idx)), a: vec![], b: vec![] });
+                let sidx = idx;
+                idx += 1;
+                for w in lx.words.iter_mut().filter(|w| w.dic == dic) {
+                    for u in w.a.iter_mut().chain(w.b.iter_mut()) {
+                        if u.2 && u.0 == 0 && u.1 == t.idx {
+                            *u = (dic, sidx, true);
+                        }
+                    }
+                }
+                // and a compound of this dictionary that refers to it inline, so that the order of look-up matters
+                let own: Vec<Word> = visible(&lx, dic).into_iter().cloned().collect();
+                let other = rng.pick(&own).clone();
+                let key = format!("{}{}", t.key, other.key);
+                if key.chars().count() <= 9 {
+                    let head = gen_head(rng, &key);
+                    let units = vec![(dic, sidx, true), (other.dic, other.idx, rng.chance(1, 2) && !(other.dic == 0 && other.idx == t.idx))];
+                    lx.words.push(Word { dic, idx, key, head, cost: 30, indexed: true, shadow_of: None, a: units.clone(), b: if rng.chance(1, 2) { units } else { vec![] } });
+                    idx += 1;
+                }
+            }
         }
         // a word with exactly one declared unit: a cheaper homograph pointing at an existing word
         if rng.chance(1, 3) {
             let own: Vec<Word> = visible(&lx, dic).into_iter().cloned().collect();
             let tgt = rng.pick(&own).clone();
-            lx.words.push(Word { dic, idx, key: tgt.key.clone(), head: gen_head(rng, &tgt.key), cost: 10, indexed: true, a: vec![(tgt.dic, tgt.idx, false)], b: if rng.chance(1, 2) { vec![(tgt.dic, tgt.idx, false)] } else { vec![] } });
+            lx.words.push(Word { dic, idx, key: tgt.key.clone(), head: gen_head(rng, &tgt.key), cost: 10, indexed: true, shadow_of: None, a: vec![(tgt.dic, tgt.idx, false)], b: if rng.chance(1, 2) { vec![(tgt.dic, tgt.idx, false)] } else { vec![] } });
             idx += 1;
         }
         let _ = idx;
@@ -599,7 +633,7 @@ fn run_case(sink: &mut Sink, lx: &Lexica, dict: &Dict, ci: &CaseIn, ill_formed: 
     let restricted_bits: u32 = (hash_of(&ci.text) % 1024) as u32 & !1; // never SURFACE: most interesting for the split iterator
 
     let desc0 = json!({"kind": "c09", "text": ci.text, "system_csv": ci.sys_csv, "user_csvs": ci.user_csvs, "rewrite_def": REWRITE_DEF, "ill_formed": ill_formed,
-                       "lexica": lx.words.iter().map(|w| json!([w.dic, w.idx, w.key, w.cost, w.indexed, w.a, w.b, w.head])).collect::<Vec<_>>()});
+                       "lexica": lx.words.iter().map(|w| json!([w.dic, w.idx, w.key, w.cost, w.indexed, w.a, w.b, w.head, w.shadow_of])).collect::<Vec<_>>()});
     // provenance of the tokenizers (fresh / switched between modes): drawn from the text so that a replay repeats it;
     // dictionaries with ill-formed declarations use fresh ones (an analysis inside the history could panic)
     let mut hrng = Rng::new(hash_of(&ci.text) ^ 0xC09);
@@ -631,19 +665,56 @@ fn run_case(sink: &mut Sink, lx: &Lexica, dict: &Dict, ci: &CaseIn, ill_formed: 
         println!("split A   : {:?}\nsplit B   : {:?}", sa, sb);
     }
     let (dv, dvj) = dview(lx, &c.cpath);
+    // the rows of every dictionary as the author wrote them, in the vocabulary of the C05 codec model: from them the
+    // model computes the declared units and `rows_units_ok` itself (Model/SplitSource.v check_source)
+    let srcs = clist((0..lx.ndics).map(|d| {
+        clist(lx.words.iter().filter(|w| w.dic == d).map(|w| {
+            let units = |us: &Vec<(usize, u32, bool)>| -> String {
+                clist(us.iter().map(|u| {
+                    let t = lx.get(u.0, u.1);
+                    if u.2 {
+                        // written surface: the key for a word of the dictionary being built, the headword for a system word
+                        format!("uinl {} 0%N {}", ctext(if u.0 == d { &t.key } else { &t.head }), ctext(&Lexica::reading_of(t)))
+                    } else if u.0 == 0 || d == 0 {
+                        format!("uref {}", cn(u.1))
+                    } else {
+                        format!("uref {}", cn((1u32 << 28) | u.1))
+                    }
+                }))
+            };
+            format!("row {} {} {} 0%N {} {}", ctext(&w.key), ctext(&w.head), ctext(&Lexica::reading_of(w)), units(&w.a), units(&w.b))
+        }))
+    }));
     let term = format!(
-        "check_case {} {} {} {} {} {} {} {} {} {}",
-        dv,
+        "let t := {} in let m2o := {} in let cp := {} in let iu := {} in let sa := {} in let sb := {} in check_case {} t m2o cp {} iu {} {} sa sb && check_source {} t m2o cp iu sa sb",
         ctext(&c.modified),
         clist(c.m2o.iter().map(|x| cnu(*x))),
         clist(c.cpath.iter().map(|x| format!("({}, {}, {})", cnu(x.0), cnu(x.1), cn(x.2)))),
-        clist(c.ctoks.iter().map(ctok)),
         clist(c.stored.iter().map(|s| cpair(&clist(s.0.iter().map(|x| cn(*x))), &clist(s.1.iter().map(|x| cn(*x)))))),
+        clist(sa.iter().map(csplit)),
+        clist(sb.iter().map(csplit)),
+        dv,
+        clist(c.ctoks.iter().map(ctok)),
         ctoks(&a),
         ctoks(&b),
-        clist(sa.iter().map(csplit)),
-        clist(sb.iter().map(csplit))
+        srcs
     );
+    if c.cpath.iter().filter(|p| (p.2 >> 28) < 15).any(|p| {
+        let w = lx.get((p.2 >> 28) as usize, p.2 & 0x0fff_ffff);
+        w.a.iter().chain(w.b.iter()).any(|u| u.2 && lx.get(u.0, u.1).shadow_of.is_some())
+    }) {
+        sink.tag("inline_ref_matching_own_and_system_row");
+    }
+    // the author's condition, recomputed here only for the histogram: keys of the declared units concatenate to the key
+    for p in c.cpath.iter().filter(|p| (p.2 >> 28) < 15) {
+        let w = lx.get((p.2 >> 28) as usize, p.2 & 0x0fff_ffff);
+        for us in [&w.a, &w.b] {
+            if !us.is_empty() {
+                let cat: String = us.iter().map(|u| lx.get(u.0, u.1).key.as_str()).collect();
+                sink.tag(if cat == w.key { "token_mode_pairs_with_rows_units_ok" } else { "token_mode_pairs_with_ill-formed_rows" });
+            }
+        }
+    }
     // histogram
     let max_units = c.stored.iter().map(|s| s.0.len().max(s.1.len())).max().unwrap_or(0);
     let nontrivial = max_units >= 2;
@@ -744,6 +815,7 @@ fn lexica_from_json(v: &Value) -> Lexica {
             head: w[7].as_str().unwrap_or(w[2].as_str().unwrap()).to_string(),
             cost: w[3].as_i64().unwrap() as i32,
             indexed: w[4].as_bool().unwrap(),
+            shadow_of: w[8].as_array().map(|x| (x[0].as_u64().unwrap() as usize, x[1].as_u64().unwrap() as u32)),
             a: units(&w[5]),
             b: units(&w[6]),
         });
@@ -752,10 +824,59 @@ fn lexica_from_json(v: &Value) -> Lexica {
     lx
 }
 
+/// head_word_length = byte length of the key, at the boundaries of the writer's length prefix (one byte below 127, two
+/// bytes up to i16::MAX, build error above: C09_head_word_length_is_key_length states exactly this condition): a
+/// compound "K" + "é" with units K / é where K is a key of L bytes; the loaded head_word_length of K must be L and the
+/// A-mode split must put the boundary at byte L.  Headword, reading and normalised form are short, so only the key's
+/// length is at its limit.
+fn key_length_boundary(sink: &mut Sink, cfg: &str) {
+    use sudachi::dic::word_id::WordId;
+    for l in [1usize, 126, 127, 128, 255, 256, 257, 16383, 16384, 32764, 32765, 32766, 32767, 32768, 40000] {
+        let k = "a".repeat(l);
+        let csv = format!(
+            "{k},0,0,100,h,{p},ヨa,n,*,A,*,*,*,*\né,0,0,100,é,{p},ヨb,é,*,A,*,*,*,*\n{k}é,0,0,-100,hh,{p},ヨc,nn,*,C,0/1,0/1,*,*\n",
+            k = k,
+            p = POS
+        );
+        let desc = json!({"kind": "c09-key-length", "key_bytes": l});
+        let id = sink.case_rust_only(desc, true);
+        sink.tag("key_length_boundary");
+        match catch(|| build_dict(&csv, &[], cfg)) {
+            Err(p) => sink.fail(id, &format!("key of {} bytes: the builder panicked: {}", l, p), ""),
+            Ok(Err(e)) => {
+                // the compound key is l + 2 bytes: the writer must refuse exactly when that exceeds i16::MAX
+                if l + 2 <= 32767 {
+                    sink.fail(id, &format!("key of {} bytes was rejected: {}", l, e), "");
+                } else {
+                    sink.tag("key_length_rejected_by_builder");
+                }
+            }
+            Ok(Ok(d)) => {
+                if l + 2 > 32767 {
+                    sink.fail(id, &format!("compound key of {} bytes (> i16::MAX) was accepted", l + 2), "");
+                    continue;
+                }
+                let dict: Dict = Rc::new(d);
+                let hw: Vec<usize> = (0..3).map(|i| dict.lexicon().get_word_info(WordId::new(0, i)).map(|w| w.head_word_length()).unwrap_or(usize::MAX)).collect();
+                if hw != vec![l, 2, l + 2] {
+                    sink.fail(id, &format!("keys of {} / 2 / {} bytes are loaded with head_word_length {:?}", l, l + 2, hw), "");
+                    continue;
+                }
+                let text = format!("{}é", k);
+                let a = run_mode(&dict, &text, Mode::A);
+                let exp = Some(vec![Tok { wid: 0, begin: 0, end: l, sb: 0, se: l }, Tok { wid: 1, begin: l, end: l + 2, sb: l, se: l + 2 }]);
+                if text.len() <= 49149 && a != exp {
+                    sink.fail(id, &format!("key of {} bytes: mode A gives {:?}", l, a.map(|v| v.iter().map(|t| (t.wid, t.begin, t.end)).collect::<Vec<_>>())), "");
+                }
+            }
+        }
+    }
+}
+
 pub fn run(args: &Args) {
-    let mut sink = Sink::new("C09", &args.out, &["Model.Split"], args.seed, &args.tier);
+    let mut sink = Sink::new("C09", &args.out, &["Model.Split", "Model.SplitSource"], args.seed, &args.tier);
     sink.shard_size = 100;
-    sink.rule("generated system + 0..2 user dictionaries (atoms of 1/2/3/4-byte code points, headwords (column 4) often of another byte length than the key, compounds declaring A and B units by id, U-id or inline reference: system->system, user->system, user->user; homographs; words with exactly one unit; unindexed unit targets) compiled by DictBuilder and loaded with DefaultInputTextPlugin + a rewrite.def whose rules change byte lengths; texts = 1..4 dictionary words / stray characters, randomly re-spelt in pre-normalisation form (upper case, full width, ㌔, rewrite rules); per text: C, A, B tokenisation by tokenizers that are fresh or were switched between modes (set_mode history, with analyses in between) before, A and B again under a restricted field request, and split_into(A/B) of every C token (sub-token ranges also checked against the unit key lengths); non-trivial = some C token declares >= 2 units; a separate malformed stream uses ill-formed declarations (unit list too short / first unit longer than the text)");
+    sink.rule("generated system + 0..2 user dictionaries (atoms of 1/2/3/4-byte code points, headwords (column 4) often of another byte length than the key, compounds declaring A and B units by id, U-id or inline reference: system->system, user->system, user->user; homographs; user copies of system words (same key, headword, POS, reading) referenced inline, so that the own-rows-first look-up order matters; words with exactly one unit; unindexed unit targets) compiled by DictBuilder and loaded with DefaultInputTextPlugin + a rewrite.def whose rules change byte lengths; texts = 1..4 dictionary words / stray characters, randomly re-spelt in pre-normalisation form (upper case, full width, ㌔, rewrite rules); per text: C, A, B tokenisation by tokenizers that are fresh or were switched between modes (set_mode history, with analyses in between) before, A and B again under a restricted field request, and split_into(A/B) of every C token (sub-token ranges also checked against the unit key lengths); non-trivial = some C token declares >= 2 units; a separate malformed stream uses ill-formed declarations (unit list too short / first unit longer than the text)");
     let res = prepare_resources(&args.work);
     let cfg = config_json(&res, "");
     if let Some(p) = &args.replay {
@@ -781,9 +902,9 @@ pub fn run(args: &Args) {
     {
         let mut lx = Lexica::default();
         lx.ndics = 1;
-        lx.words.push(Word { dic: 0, idx: 0, key: "ab".into(), head: "AB".into(), cost: 1000, indexed: true, a: vec![(0, 1, false), (0, 2, false)], b: vec![(0, 1, false), (0, 2, false)] });
-        lx.words.push(Word { dic: 0, idx: 1, key: "a".into(), head: "A".into(), cost: 1000, indexed: false, a: vec![], b: vec![] });
-        lx.words.push(Word { dic: 0, idx: 2, key: "b".into(), head: "B".into(), cost: 1000, indexed: false, a: vec![], b: vec![] });
+        lx.words.push(Word { dic: 0, idx: 0, key: "ab".into(), head: "AB".into(), cost: 1000, indexed: true, shadow_of: None, a: vec![(0, 1, false), (0, 2, false)], b: vec![(0, 1, false), (0, 2, false)] });
+        lx.words.push(Word { dic: 0, idx: 1, key: "a".into(), head: "A".into(), cost: 1000, indexed: false, shadow_of: None, a: vec![], b: vec![] });
+        lx.words.push(Word { dic: 0, idx: 2, key: "b".into(), head: "B".into(), cost: 1000, indexed: false, shadow_of: None, a: vec![], b: vec![] });
         let sys_csv = lx.csv(0);
         let dict: Dict = Rc::new(build_dict(&sys_csv, &[], &cfg).expect("corpus dictionary"));
         for text in ["ＡＢ", "ab", "AB", "abab", "xＡb。", ""] {
@@ -792,6 +913,7 @@ pub fn run(args: &Args) {
             sink.tag("corpus_split_alpha");
         }
     }
+    key_length_boundary(&mut sink, &cfg);
     let ndict = args.n(45, 900);
     let per = args.n(26, 40);
     let mut built = 0u64;
